@@ -188,6 +188,13 @@ func (in *instr) typeOf(e ast.Expr) types.Type {
 	return nil
 }
 
+func under(t types.Type) types.Type {
+	if t == nil {
+		return nil
+	}
+	return t.Underlying()
+}
+
 func isChan(t types.Type) bool {
 	if t == nil {
 		return false
@@ -408,7 +415,8 @@ func (in *instr) stmt(s ast.Stmt) []ast.Stmt {
 	case *ast.RangeStmt:
 		in.funcLits(v.X)
 		in.block(v.Body)
-		if !isChan(in.typeOf(v.X)) {
+		if _, isMap := under(in.typeOf(v.X)).(*types.Map); !isChan(in.typeOf(v.X)) && !isMap {
+			// not in map loops: Go randomises their order, so the number of visits before a break varies
 			in.preemptInto(v.Body, v)
 		}
 		if isChan(in.typeOf(v.X)) {
